@@ -38,15 +38,16 @@ def harness_hash(extra_files):
     return h.hexdigest()[:12]
 
 
-def build_check(cid):
-    spec = CHECKS[cid]
+def build_check(cid, spec=None, tag=None):
+    spec = spec or CHECKS[cid]
+    tag = tag or cid.lower()
     lib = build_lib.build(spec["cfg"])
     src = os.path.join(VERIF, spec["src"])
     extra_src = [os.path.join(VERIF, s) for s in spec.get("extra_src", [])]
     hh = harness_hash([src] + extra_src)
     bindir = os.path.join(lib["dir"], "bin")
     os.makedirs(bindir, exist_ok=True)
-    exe = os.path.join(bindir, "%s-%s" % (cid.lower(), hh))
+    exe = os.path.join(bindir, "%s-%s" % (tag, hh))
     if os.path.exists(exe):
         return exe, lib
     flags = ["-std=gnu++17", "-w", "-I", os.path.join(REPO, "spqlios"), "-I", os.path.join(VERIF, "harness"),
@@ -75,7 +76,7 @@ def build_check(cid):
     os.rename(tmp, exe)
     # drop stale binaries of this check
     for f in os.listdir(bindir):
-        if f.startswith(cid.lower() + "-") and os.path.join(bindir, f) != exe and ".tmp" not in f:
+        if f.startswith(tag + "-") and os.path.join(bindir, f) != exe and ".tmp" not in f:
             try:
                 os.unlink(os.path.join(bindir, f))
             except OSError:
@@ -113,8 +114,13 @@ def main():
         for c in cfgs:
             build_lib.build(c)
         import concurrent.futures as cf
+        jobs = [(c, None, None) for c in sorted(CHECKS)]
+        for c in sorted(CHECKS):
+            for i, aux in enumerate(CHECKS[c].get("aux", [])):
+                build_lib.build(aux["cfg"])
+                jobs.append((c, aux, "%s_aux%d" % (c.lower(), i)))
         with cf.ThreadPoolExecutor(8) as ex:
-            list(ex.map(build_check, sorted(CHECKS)))
+            list(ex.map(lambda j: build_check(*j), jobs))
         print("built %d library configurations and %d checks in %.1fs" % (len(cfgs), len(CHECKS), time.time() - t0))
         return 0
     if len(sys.argv) < 3:
@@ -126,6 +132,8 @@ def main():
     exe, lib = build_check(cid)
     spec = CHECKS[cid]
     env = dict(os.environ)
+    for i, aux in enumerate(spec.get("aux", [])):
+        env["VERIF_AUX_%d" % i] = build_check(cid, aux, "%s_aux%d" % (cid.lower(), i))[0]
     env["VERIF_DIR"] = VERIF
     env["VERIF_REPO"] = REPO
     env["VERIF_LIBDIR"] = lib["dir"]
